@@ -99,6 +99,59 @@ def compilePath (p : Path) : List MStep :=
      | _ => [{ code := .fromRoot, test := .root, preds := [] }]
    else []) ++ compileSteps p.steps
 
+/-! ### `AbbreviatedNodeTestStep` branch by branch
+
+The compiler reaches a step in one of several parallel branches, depending on how the axis is written and on
+whether the current token is still a `/` (the second slash of `//`, or the slash after an id()/key() call — the
+caller consumed only one).  Every branch that emits a child-axis step must record `matchTypePos`, otherwise the
+`//` that follows cannot re-flag the step as any-ancestor.  `compilePathW` follows the branches; `compilePath` above
+is what they all amount to (`compilePathW_eq`), and the op codes of `compilePathW` are what the driver prints for the
+comparison with the real op map. -/
+
+inductive Branch where
+  | at_            -- token `@`
+  | axisName       -- `lookahead("::", 1)`: token is `child` / `attribute`
+  | slashAbbrev    -- token `/`, then an abbreviated non-attribute step
+  | slashAt        -- token `/`, then `@`
+  | slashAxis      -- token `/`, then `child::` / `attribute::`
+  | plain          -- none of the above: abbreviated child step
+deriving DecidableEq, Repr
+
+/-- which branch compiles step `s`; `afterSlash`: the current token is still a `/` -/
+def branchOf (s : Step) (afterSlash : Bool) : Branch :=
+  if afterSlash then
+    (if s.explicit then .slashAxis else if s.attrAxis then .slashAt else .slashAbbrev)
+  else
+    (if s.explicit then .axisName else if s.attrAxis then .at_ else .plain)
+
+/-- (axis op code emitted, `matchTypePos > -1`) of a branch for a step on the given axis -/
+def branchEmit (b : Branch) (attrAxis : Bool) : Code × Bool :=
+  match b with
+  | .at_ | .slashAt => (.attr, false)
+  | .axisName | .slashAxis => if attrAxis then (.attr, false) else (.immAnc, true)
+  | .slashAbbrev | .plain => (.immAnc, true)
+
+def compileStepW (s : Step) (followedByDesc afterSlash : Bool) : MStep :=
+  let e := branchEmit (branchOf s afterSlash) s.attrAxis
+  { code := if e.2 && followedByDesc then .anyAnc else e.1     -- setOpCodeMapValue(matchTypePos, eMATCH_ANY_ANCESTOR)
+    test := .t s.test
+    preds := s.preds }
+
+/-- `RelativePathPattern`: after a `//` separator the second slash is still the current token when the step is
+compiled; `first` says whether the first step of the list is compiled with a pending `/` (after id()/key()) -/
+def compileStepsW : List (Sep × Step) → Bool → List MStep
+  | [], _ => []
+  | [(_, s)], pend => [compileStepW s false pend]
+  | (_, s) :: (sep', s') :: r, pend =>
+    compileStepW s (sep' == .desc) pend :: compileStepsW ((sep', s') :: r) (sep' == .desc)
+
+def compilePathW (p : Path) : List MStep :=
+  (if p.abs then
+     match p.steps with
+     | (.desc, _) :: _ => [{ code := .anyAncPred, test := .t .node, preds := [] }]
+     | _ => [{ code := .fromRoot, test := .root, preds := [] }]
+   else []) ++ compileStepsW p.steps false
+
 /-! ## NodeTester -/
 
 /-- `NodeTester::operator()`: `attrTester` is `stepType == eFROM_ATTRIBUTES` at construction
@@ -109,6 +162,12 @@ def tester (d : Doc) (attrTester : Bool) (t : MTest) (m : Nat) : Score :=
   | .set S => if S.contains m then .other else .none                             -- `n == context` over the node list
   | .t (.name s) =>
     if d.kind m == (if attrTester then Kind.attr else Kind.elem) && d.name m == s then .qname else .none
+  | .t (.qname _ uri loc) =>                                                    -- testElementQName / testAttributeQName
+    if d.kind m == (if attrTester then Kind.attr else Kind.elem) && d.name m == "{" ++ uri ++ "}" ++ loc then .qname
+    else .none
+  | .t (.nsAny _ uri) =>                                                        -- test…NamespaceOnly: eMatchScoreNSWild
+    if d.kind m == (if attrTester then Kind.attr else Kind.elem) && ("{" ++ uri ++ "}").isPrefixOf (d.name m) then .nsWild
+    else .none
   | .t .any => if d.kind m == (if attrTester then Kind.attr else Kind.elem) then .nodeTest else .none
   | .t .text => if d.kind m == .text then .nodeTest else .none
   | .t .comment => if d.kind m == .comment then .nodeTest else .none
@@ -304,6 +363,10 @@ eMATCH_ANY_ANCESTOR_WITH_FUNCTION_CALL when `//` follows, then the relative path
 def compileFn (p : FnPath) : List MStep :=
   { code := .fn (match p.steps with | (.desc, _) :: _ => true | _ => false), test := .set p.S, preds := [] } ::
     compileSteps p.steps
+
+def compileFnW (p : FnPath) : List MStep :=
+  { code := .fn (match p.steps with | (.desc, _) :: _ => true | _ => false), test := .set p.S, preds := [] } ::
+    compileStepsW p.steps true
 
 /-- `getMatchScore` of an id()/key()-leading pattern (backtracking matcher; the any-ancestor search of the
 eOP_FUNCTION case — `while(context != 0 && fFound == false)` — is the `fn true` arm of `leftOK`) -/
